@@ -86,7 +86,7 @@ class _Worker:
         pass
       self.p = None
 
-  def solve(self, path, timeout, tactic):
+  def solve(self, path, timeout, tactic, grace=5.0):
     if self.p is None or self.p.poll() is not None:
       self.start()
     req = json.dumps({'path': path, 'timeout': timeout, 'tactic': tactic})
@@ -107,7 +107,7 @@ class _Worker:
       return {'status': 'error', 'time': time.time() - t0, 'detail': 'worker pipe'}
     th = threading.Thread(target=rd, daemon=True)
     th.start()
-    th.join(timeout + 5)
+    th.join(timeout + grace)
     if th.is_alive() or not result.get('line'):
       alive = th.is_alive()
       self.kill()
